@@ -3,7 +3,7 @@
    table and drops every sender in it, and send_message on a closed table hands out a failed future;
    `step_legacy` = today's code, which does neither).  Proofs: Proofs/ClientFacts.v.
    See Properties/C11.v for the reading of events. *)
-Require Import DV.Base.Bytes DV.Model.Client DV.Model.ClientMulti DV.Proofs.ClientFacts DV.Proofs.ClientMultiFacts.
+Require Import DV.Base.Bytes DV.Model.Client DV.Model.ClientMulti DV.Model.ClientObj DV.Proofs.ClientFacts DV.Proofs.ClientMultiFacts DV.Proofs.ClientObjFacts.
 
 (* once the reader has stopped - for whatever reason - no future handed out so far is pending *)
 Theorem C12_reader_stop_releases_all : forall es i,
@@ -150,3 +150,45 @@ Print Assumptions C12_failed_connect_changes_nothing.
 Theorem C12_other_connection_changes_nothing : forall s c c' e, c' <> c -> conn (mstep s (MPeer c' e)) c = conn s c.
 Proof. exact multi_isolation. Qed.
 Print Assumptions C12_other_connection_changes_nothing.
+
+(* The client object field by field (Model/ClientObj.v: writer, waiter table + closed flag as two pointers, connect() as
+   success / failure before a stream exists / failure after it - a TLS handshake that fails).  After repair D13 the
+   writer and the table always belong to the same connection, over every history ... *)
+Theorem C12_writer_and_table_move_together : forall es, owr (orun es) = otb (orun es) /\ otb (orun es) = onc (orun es).
+Proof. exact writer_and_table_move_together. Qed.
+Print Assumptions C12_writer_and_table_move_together.
+
+(* ... so the object IS the product of single-connection machines (no renumbering: the identity on connections) ... *)
+Theorem C12_object_refines_product : forall es,
+  oconn (orun es) = conn (mrun (map omap es)) /\ owr (orun es) = cur (mrun (map omap es)).
+Proof. exact object_refines_product. Qed.
+Print Assumptions C12_object_refines_product.
+
+Theorem C12_object_release : forall es c i, closed (oconn (orun es) c) = true -> i < nw (oconn (orun es) c) ->
+  ws (oconn (orun es) c) i <> WPending.
+Proof. exact object_release. Qed.
+Print Assumptions C12_object_release.
+
+(* ... and a connect() that fails, early or late, changes nothing at all *)
+Theorem C12_failed_handshake_changes_nothing : forall s, ostep s OConnectFailEarly = s /\ ostep s OConnectFailLate = s.
+Proof. exact failed_connect_changes_nothing. Qed.
+Print Assumptions C12_failed_handshake_changes_nothing.
+
+(* before D13: the harness scenario RECONN tlsfail as a history; requests 2 and 3 wait for ever *)
+Theorem C12_failed_handshake_legacy_refuted :
+  let s := orun_d13 sched_tlsfail in
+  send_outcomes late_d13 sched_tlsfail = [WGot {| hop := 1%N; fid := 0 |}; WPending; WPending] /\
+  owr s = 1 /\ otb s = 2 /\ closed (oconn s 1) = true /\ closed (oconn s 2) = false /\ inq (oconn s 2) = [].
+Proof. exact d13_refuted. Qed.
+Print Assumptions C12_failed_handshake_legacy_refuted.
+
+Theorem C12_failed_handshake_repaired_example :
+  send_outcomes late_ok sched_tlsfail = [WGot {| hop := 1%N; fid := 0 |}; WGot {| hop := 2%N; fid := 1 |}; WDropped].
+Proof. exact d13_repaired. Qed.
+Print Assumptions C12_failed_handshake_repaired_example.
+
+Theorem C12_reconnect_scenarios :
+  send_outcomes late_ok sched_overlap = [WDropped; WGot {| hop := 2%N; fid := 0 |}] /\
+  send_outcomes late_ok sched_failed = [WGot {| hop := 1%N; fid := 0 |}; WDropped].
+Proof. exact reconnect_scenarios. Qed.
+Print Assumptions C12_reconnect_scenarios.
